@@ -32,6 +32,7 @@ pub fn ring_cfg(max_sq_log2: u8) -> impl Strategy<Value = RingCfg> {
         defer_taskrun: defer_taskrun && !sqpoll,
         // One history in forty on the largest ring there is.
         max_size: cq_log2 == Some(6) && alt_layout && max_sq_log2 >= 2,
+        cq_odd: direct || sq_start.near_wrap(),
     })
 }
 
@@ -47,6 +48,7 @@ pub fn ring_cfg_wide() -> impl Strategy<Value = RingCfg> {
         alt_layout,
         defer_taskrun,
         max_size: false,
+        cq_odd: direct,
     })
 }
 
